@@ -14,6 +14,7 @@ import (
 	"encoding/binary"
 	"fmt"
 	"io"
+	"reflect"
 	"runtime/metrics"
 	"strings"
 	"syscall"
@@ -307,10 +308,44 @@ func c08Run(u *vfUnit) {
 			u.Violation("alloc:"+e.name+":"+kind, fmt.Sprintf("%s allocated %d bytes decoding a %d-byte %s mutant (%s); bound %d", e.name, delta, len(body), kind, mut, bound), map[string]any{"entry": e.name, "body_hex": fmt.Sprintf("%x", vfTrimB(body, 4000)), "mutation": mut, "allocated": delta})
 		}
 	}
+	// With the allocator a request body is a sub-slice of a recycled 256 KiB page: bytes of earlier
+	// packets lie behind it, within its capacity. Decoding must depend on the slice only: the same body
+	// as an exact-size slice and as the head of a dirty page must give the same outcome and value.
+	page := make([]byte, 8192)
+	pageDiff := func(body []byte, mut string) {
+		if len(body) == 0 || len(body) > 4000 || body[0] < 3 || body[0] > 20 && body[0] != 200 {
+			return
+		}
+		for i := range page {
+			page[i] = "TOP-SECRET-"[i%11]
+		}
+		copy(page, body)
+		dec := func(b []byte) (pk any, err error) {
+			defer func() {
+				if rec := recover(); rec != nil {
+					err = fmt.Errorf("panic: %v", rec)
+				}
+			}()
+			q, e := makePacket(rxPacket{fxp(b[0]), b[1:]})
+			if e == nil {
+				if w, ok := q.(*sshFxpWritePacket); ok {
+					w.Data = append([]byte(nil), w.Data...)
+				}
+			}
+			return q, e
+		}
+		exact, e1 := dec(append([]byte(nil), body...))
+		paged, e2 := dec(page[:len(body)])
+		u.Count("page_backed_decodes", 1)
+		if (e1 == nil) != (e2 == nil) || (e1 == nil && !reflect.DeepEqual(exact, paged)) {
+			u.Violation("decode-reads-beyond-slice:"+kind, fmt.Sprintf("pkg.makePacket on a %s mutant (%s): as an exact-size slice -> err %v, as the head of a dirty page -> err %v (values equal: %v): the decoder looked at bytes beyond the frame", kind, mut, e1, e2, reflect.DeepEqual(exact, paged)), map[string]any{"body_hex": fmt.Sprintf("%x", vfTrimB(body, 400)), "mutation": mut})
+		}
+	}
 	all := func(body []byte, mut string) {
 		for _, e := range entries {
 			decode(e, body, mut)
 		}
+		pageDiff(body, mut)
 	}
 	rounds := 3
 	for round := 0; round < rounds; round++ {
@@ -399,6 +434,88 @@ func c08Run(u *vfUnit) {
 		}
 	}
 	c08Framing(u)
+	c08ReusedValues(u)
+}
+
+// c08ReusedValues: totality must not depend on what a decoder's target held before. Streams of
+// valid frames with payloads of changing length are decoded into ONE long-lived value per type
+// (as a receive loop does), the payload is read out after every decode; a panic or an error on
+// a valid frame is a violation.
+func c08ReusedValues(u *vfUnit) {
+	r := u.Rng.Fork()
+	var reply sshfx.ExtendedReplyPacket
+	var ext sshfx.ExtendedPacket
+	var data sshfx.DataPacket
+	var write sshfx.WritePacket
+	var raw sshfx.RawPacket
+	drain := func(d sshfx.ExtendedData) {
+		if b, ok := d.(*sshfx.Buffer); ok {
+			_ = b.Bytes()
+			for b.Len() >= 8 {
+				b.ConsumeUint64()
+			}
+			for b.Len() > 0 {
+				b.ConsumeUint8()
+			}
+			if b.Len() != 0 {
+				panic(fmt.Sprintf("Buffer.Len() = %d after the payload was read out", b.Len()))
+			}
+		}
+	}
+	for i := 0; i < 200; i++ {
+		payload := r.Bytes([]int{0, 1, 8, 16, 40, 3, 88, 8, 300, 2}[i%10] + r.Intn(3))
+		name := ""
+		var err error
+		func() {
+			defer func() {
+				if rec := recover(); rec != nil {
+					err = fmt.Errorf("panic: %v", rec)
+				}
+			}()
+			switch i % 5 {
+			case 0:
+				name = "fx.ExtendedReplyPacket(reused)"
+				b := vfPkt{Type: rfExtendedReply, ID: 1, ExtData: payload}.Body()
+				if err = reply.UnmarshalPacketBody(sshfx.NewBuffer(append([]byte(nil), b[5:]...))); err == nil {
+					drain(reply.Data)
+				}
+			case 1:
+				name = "fx.ExtendedPacket(reused, unregistered extension)"
+				b := vfPkt{Type: rfExtended, ID: 1, Ext: "vf-unregistered@example.com", ExtData: payload}.Body()
+				if err = ext.UnmarshalPacketBody(sshfx.NewBuffer(append([]byte(nil), b[5:]...))); err == nil {
+					drain(ext.Data)
+				}
+			case 2:
+				name = "fx.DataPacket(reused)"
+				b := vfPkt{Type: rfData, ID: 1, Data: payload}.Body()
+				if err = data.UnmarshalPacketBody(sshfx.NewBuffer(append([]byte(nil), b[5:]...))); err == nil && len(data.Data) != len(payload) {
+					err = fmt.Errorf("%d payload bytes for %d sent", len(data.Data), len(payload))
+				}
+			case 3:
+				name = "fx.WritePacket(reused)"
+				b := vfPkt{Type: rfWrite, ID: 1, Handle: "h", Off: 7, Data: payload}.Body()
+				if err = write.UnmarshalPacketBody(sshfx.NewBuffer(append([]byte(nil), b[5:]...))); err == nil && len(write.Data) != len(payload) {
+					err = fmt.Errorf("%d payload bytes for %d sent", len(write.Data), len(payload))
+				}
+			case 4:
+				name = "fx.RawPacket(reused)"
+				b := vfPkt{Type: rfExtendedReply, ID: 1, ExtData: payload}.Body()
+				if err = raw.UnmarshalBinary(append([]byte(nil), b...)); err == nil {
+					_ = raw.Data.Bytes()
+					for raw.Data.Len() > 0 {
+						raw.Data.ConsumeUint8()
+					}
+				}
+			}
+		}()
+		u.Count("decodes", 1)
+		u.SetAdd("entry_points", name)
+		u.Eval("reused/" + name)
+		if err != nil {
+			u.Violation("reused-value:"+name, fmt.Sprintf("%s: valid frame #%d (%d payload bytes) of a stream decoded into a long-lived value: %v", name, i, len(payload), err), nil)
+			return
+		}
+	}
 }
 
 func c08TrimExt(a *vfAttrs) {
